@@ -92,17 +92,18 @@ Section Nodes.
   Definition node_shutting_down (n : nat) : M S bool :=
     c <- node_flags n ;; ret (shutting_down c).
 
-  (* WorkerController.sendcommand: channel.send raises OSError on a closed channel *)
+  (* WorkerController.sendcommand: Channel.send raises OSError on a closed channel;
+     the command is then dropped (the node's errordown event follows) *)
   Definition node_send (n : nat) (c : cmd) : M S unit :=
     f <- node_flags n ;;
-    if n_closed f then raise EOSError else emit (OSend n c).
+    if n_closed f then ret tt else emit (OSend n c).
 
-  (* WorkerController.shutdown *)
+  (* WorkerController.shutdown: at most one shutdown command per node *)
   Definition node_shutdown (n : nat) : M S unit :=
     f <- node_flags n ;;
-    if n_down f then ret tt
+    if n_down f || n_sdsent f then ret tt
     else
-      catch (node_send n CShutdown) EOSError ;;;
+      node_send n CShutdown ;;;
       s <- get ;;
       put (set_nt s (aset n {| n_spec := n_spec f; n_down := n_down f; n_sdsent := true;
                                n_closed := n_closed f |} (nt_of s))).
